@@ -23,6 +23,9 @@ pub fn desc_tags(d: &Desc) -> BTreeSet<String> {
                 }
             }
             Decl::Record { id, packet, parent, fields, .. } => {
+                if !*packet && parent.is_some() {
+                    t.insert("struct.inherit".into());
+                }
                 let Ok(fl) = d.flat(id) else { continue };
                 let level = fl.last();
                 if level.fields.is_empty() {
